@@ -132,6 +132,33 @@ pub fn emit_family(rb: &mut RunBuilder, r: &mut Rng, family: u64, src: u32, othe
     }
 }
 
+/// the footer segment re-encoded from bytes that are NOT the footer's UTF-8: one character at a time
+/// replaced by an ill-formed sequence (a lenient decoder maps every such sequence to U+FFFD), and the whole
+/// footer replaced by short ill-formed strings
+pub fn raw_footer_edits(rb: &mut RunBuilder, src: u32, footer: &str, out: &mut Vec<u32>) {
+    const BAD: [&[u8]; 6] = [&[0xff], &[0x80], &[0xc3], &[0xf0, 0x9f, 0x98], &[0xed, 0xa0, 0x80], &[0xef, 0xbf]];
+    let idx: Vec<(usize, char)> = footer.char_indices().collect();
+    // every U+FFFD of the footer, and a few other positions
+    let mut picks: Vec<usize> = idx.iter().enumerate().filter(|(_, (_, c))| *c == '\u{fffd}').map(|(n, _)| n).collect();
+    for n in [0usize, idx.len() / 2, idx.len().saturating_sub(1)] {
+        if n < idx.len() && !picks.contains(&n) {
+            picks.push(n);
+        }
+    }
+    for n in picks.into_iter().take(6) {
+        let (at, ch) = idx[n];
+        for bad in BAD {
+            let mut raw = footer.as_bytes()[..at].to_vec();
+            raw.extend_from_slice(bad);
+            raw.extend_from_slice(&footer.as_bytes()[at + ch.len_utf8()..]);
+            out.push(rb.fault(src, FaultKind::FooterReplaceRaw { hex: hex::encode(raw) }, None));
+        }
+    }
+    for bad in BAD {
+        out.push(rb.fault(src, FaultKind::FooterReplaceRaw { hex: hex::encode(bad) }, None));
+    }
+}
+
 /// long tokens: integrity must cover every byte, also far beyond the first few kilobytes.  Complete
 /// sweeps are too expensive here; faults are sampled with a bias to 4 KiB / 64 KiB boundaries and to
 /// the last bytes in front of the tag / signature.
@@ -238,9 +265,10 @@ fn gen(ctx: &GenCtx, i: u64) -> Option<Run> {
     } else {
         r.usize(300)
     };
-    let footer = match r.below(4) {
-        0 => None,
-        1 => Some(String::new()),
+    let footer = match r.below(8) {
+        0 | 1 => None,
+        2 | 3 => Some(String::new()),
+        4 => Some(format!("{}\u{fffd}{}", ascii!(r, r.usize(4)), ascii!(r, r.usize(4)))),
         _ => Some(nonempty_text!(r, 12)),
     };
     let assertion = if proto.has_assertion() && r.chance(1, 2) { Some(nonempty_text!(r, 12)) } else { None };
@@ -290,6 +318,17 @@ fn gen(ctx: &GenCtx, i: u64) -> Option<Run> {
         for n in 1..=2 {
             outs.push(rb.fault(t.msg, FaultKind::Pad { seg: seg.clone(), n }, None));
         }
+    }
+    if !proto.is_local() {
+        // out-of-range and boundary scalars in either half of the signature (same length, canonical base64)
+        for half in 0..2u8 {
+            for pattern in 0..4u8 {
+                outs.push(rb.fault(t.msg, FaultKind::SigFill { half, pattern }, None));
+            }
+        }
+    }
+    if let Some(f) = &footer {
+        raw_footer_edits(&mut rb, t.msg, f, &mut outs);
     }
     let twin_every = 7;
     for (k, m) in outs.iter().enumerate() {
